@@ -555,9 +555,10 @@ def slack_guards(ctx, rid, fns):
                         offs = src(v.right)
                 mn = None
                 for m_ in walk_no_nested(strip_docstring(fn.node.body)):
-                    if isinstance(m_, ast.Assign) and isinstance(m_.targets[0], ast.Tuple) and len(m_.targets[0].elts) == 2 \
-                            and (is_name(m_.value, 'bounds') or (isinstance(m_.value, ast.Call) and call_name(m_.value) == '_get_bounds')):
-                        mn = src(m_.targets[0].elts[0])
+                    if isinstance(m_, ast.Assign) and (is_name(m_.value, 'bounds') or (isinstance(m_.value, ast.Call) and call_name(m_.value) == '_get_bounds')):
+                        for t_ in m_.targets:
+                            if isinstance(t_, ast.Tuple) and len(t_.elts) == 2:
+                                mn = src(t_.elts[0])
                 ok = False
                 if offs and mn:
                     want = [('falsy', '%s - %s' % (mn, offs)), (mn, '==', offs), (mn, '>=', offs), (offs, '==', mn),
@@ -964,8 +965,10 @@ def penalty_sign(ctx, rid, fn):
     for n in g.stmts():
         if not (isinstance(n, ast.AugAssign) and is_name(n.target, selfn)):
             continue
-        v = n.value
-        occ = sum(1 for x in ast.walk(v) if is_name(x, pname))
+        v = expand_names(fn.node, n.value)
+        # occurrences of the polynomial as a factor (not as the base of P.offset and the like)
+        attr_bases = {id(x.value) for x in ast.walk(v) if isinstance(x, ast.Attribute)}
+        occ = sum(1 for x in ast.walk(v) if is_name(x, pname) and id(x) not in attr_bases)
         facts = []
         for t, pol, o in g.edge_dominators(n):
             facts += compare_atoms(t, pol)
